@@ -273,6 +273,7 @@ class PathState(object):
         self.notes = []
         self.ghost = {}
         self.defined = set()
+        self.container_base = {}
         self._pending = []
         self.z3_only = False
         self.fd_cons = []
@@ -767,18 +768,27 @@ class Engine(object):
         self.set_local(frame, node.name, self.make_func(node, env, q, None, frame, st, frame), st)
 
     def st_Return(self, node, frame, st):
-        if st.guards:
+        if len(st.guards) > self.guard_base(frame):
             raise NeedFork("return under merge guard")
         v = self.eval(node.value, frame, st) if node.value is not None else None
         raise ReturnSig(v)
 
+    def guard_base(self, frame):
+        """number of merge guards that were active when the current function was entered"""
+        f = frame
+        while f is not None:
+            if "__guard_base__" in f.locals:
+                return f.locals["__guard_base__"]
+            f = f.parent
+        return 0
+
     def st_Break(self, node, frame, st):
-        if st.guards:
+        if len(st.guards) > frame.locals.get("__loop_guard_base__", self.guard_base(frame)):
             raise NeedFork("break under merge guard")
         raise BreakSig()
 
     def st_Continue(self, node, frame, st):
-        if st.guards:
+        if len(st.guards) > frame.locals.get("__loop_guard_base__", self.guard_base(frame)):
             raise NeedFork("continue under merge guard")
         raise ContinueSig()
 
@@ -882,12 +892,26 @@ class Engine(object):
         raise Unsupported("unpack of %r" % (type(v).__name__,))
 
     # -- stores with merge support ---------------------------------------------------------------
-    def merged(self, new, old, st):
-        """value of a store performed under the active merge guards"""
-        if not st.guards:
+    def merged(self, new, old, st, base=0):
+        """
+        value of a store performed under the active merge guards; guards that were already active
+        when the stored-into frame / container came into existence (`base`) do not count: the
+        location only exists under them
+        """
+        gs = st.guards[base:]
+        if not gs:
             return new
-        g = _and(st.guards)
+        g = _and(gs)
         return self.merge_values(g, new, old)
+
+    def born(self, obj, st):
+        """remember under how many merge guards a container was created"""
+        st.container_base[id(obj)] = (len(st.guards), obj)
+        return obj
+
+    def base_of(self, obj, st):
+        r = st.container_base.get(id(obj))
+        return r[0] if r is not None and r[1] is obj else 0
 
     def merge_values(self, g, new, old):
         if new is old:
@@ -929,7 +953,7 @@ class Engine(object):
             st.log(lambda: env.globals.__setitem__(name, old))
             return
         old = frame.locals.get(name, UNBOUND)
-        frame.locals[name] = self.merged(v, old, st)
+        frame.locals[name] = self.merged(v, old, st, self.guard_base(frame))
         if old is UNBOUND:
             st.log(lambda: frame.locals.pop(name, None))
         else:
@@ -1002,7 +1026,7 @@ class Engine(object):
             k = key
             had = k in obj
             old = obj.get(k, UNBOUND)
-            obj[k] = self.merged(v, old, st)
+            obj[k] = self.merged(v, old, st, self.base_of(obj, st))
 
             def undo():
                 if had:
@@ -1019,7 +1043,7 @@ class Engine(object):
             if not -len(obj) <= key < len(obj):
                 raise PyRaise(IndexError, ("list assignment index out of range",))
             old = obj[key]
-            obj[key] = self.merged(v, old, st)
+            obj[key] = self.merged(v, old, st, self.base_of(obj, st))
             st.log(lambda: obj.__setitem__(key, old))
             return
         raise Unsupported("item store on %r" % (type(obj).__name__,))
@@ -1157,6 +1181,18 @@ class Engine(object):
             return self.for_symbolic(node, it, frame, st)
         items = self.iterate(it, st)
         broke = False
+        prev_lgb = frame.locals.get("__loop_guard_base__")
+        frame.locals["__loop_guard_base__"] = len(st.guards)
+        try:
+            return self._for_concrete(node, items, frame, st)
+        finally:
+            if prev_lgb is None:
+                frame.locals.pop("__loop_guard_base__", None)
+            else:
+                frame.locals["__loop_guard_base__"] = prev_lgb
+
+    def _for_concrete(self, node, items, frame, st):
+        broke = False
         for x in items:
             self.assign(node.target, x, frame, st)
             try:
@@ -1283,12 +1319,32 @@ class Engine(object):
     def ex_Constant(self, node, frame, st):
         return node.value
 
+    def under_guards(self, v, st):
+        """a finite choice read under merge guards that determine it is read as its value"""
+        if not st.guards or not isinstance(v, FV):
+            return v
+        gn = [bool_node(g) for g in st.guards]
+        gn = [g for g in gn if isinstance(g, FV)]
+        if not gn:
+            return v
+        anc = fd.ancestors(v)
+        rel = [g for g in gn if g.id in anc or any(a in anc for a in fd.ancestors(g))]
+        if not rel:
+            return v
+        try:
+            idx = fd.possible_indices(v, gn)
+        except fd.TooBig:
+            return v
+        if len(idx) == 1:
+            return v.values[idx[0]]
+        return v
+
     def ex_Name(self, node, frame, st):
         name = node.id
         f = frame
         while f is not None:
             if name in f.locals:
-                v = f.locals[name]
+                v = self.under_guards(f.locals[name], st)
                 if v is UNBOUND:
                     raise PyRaise(UnboundLocalError, (name,))
                 if isinstance(v, FV) and any(x is UNBOUND for x in v.values):
@@ -1337,7 +1393,9 @@ class Engine(object):
         return tuple(self.eval(e, frame, st) for e in node.elts)
 
     def ex_List(self, node, frame, st):
-        return [self.eval(e, frame, st) for e in node.elts]
+        if not node.elts:
+            return self.born(GList(), st)  # accumulator lists may be appended to under merge guards
+        return self.born([self.eval(e, frame, st) for e in node.elts], st)
 
     def ex_Set(self, node, frame, st):
         items = [self.eval(e, frame, st) for e in node.elts]
@@ -1354,7 +1412,7 @@ class Engine(object):
             if not is_concrete(kv):
                 raise Unsupported("dict display with symbolic key")
             d[kv] = self.eval(v, frame, st)
-        return d
+        return self.born(d, st)
 
     def ex_Attribute(self, node, frame, st):
         obj = self.eval(node.value, frame, st)
@@ -1466,7 +1524,7 @@ class Engine(object):
                 return mk_str(obj.at(obj.length + key))
             return mk_str(obj.at(kz))
         if isinstance(obj, GList):
-            raise Unsupported("index into a guarded list")
+            return self.get_item(self.compact_glist(obj, st), key, st)
         if isinstance(obj, (list, tuple, str)):
             if isinstance(key, FV):
                 return self.lift_raise(lambda o, k: o[k], [obj, key], st)
@@ -1797,6 +1855,10 @@ class Engine(object):
                 parts = [self.cond_z(self.equals(a, b, st), st) for a, b in zip(l, r)]
                 return mk_bool(_and([z3.BoolVal(p) if isinstance(p, bool) else p for p in parts]))
             raise Unsupported("equality of containers with symbolic content")
+        if isinstance(l, S.SCat) or isinstance(r, S.SCat):
+            z = S.structural_eq(l, r, eq_z3) if isinstance(l, (S.SCat, str, FV)) and isinstance(r, (S.SCat, str, FV)) else None
+            if z is not None:
+                return mk_bool(z)
         return mk_bool(eq_z3(l, r))
 
     def contains(self, container, item, st):
@@ -1906,13 +1968,44 @@ class Engine(object):
         env = frame.func.module if frame.func else None
         return PyFunc(fd, env, "<lambda>", None, frame)
 
+    def compact_glist(self, gl, st):
+        """
+        plain element list of a guarded list: consecutive items whose guards are pairwise
+        exclusive and jointly exhaustive under the path condition form one element (the merge
+        of their values); anything else is outside the subset
+        """
+        items = gl.items
+        out = []
+        i = 0
+        while i < len(items):
+            g, x = items[i]
+            if z3.is_true(g):
+                out.append(x)
+                i += 1
+                continue
+            group = [(g, x)]
+            j = i + 1
+            while st.feasible(z3.Not(_or([h for h, _ in group]))):
+                if j >= len(items) or z3.is_true(items[j][0]):
+                    raise Unsupported("iteration over a list with conditionally present elements")
+                group.append(items[j])
+                j += 1
+            for a in range(len(group)):
+                for b in range(a + 1, len(group)):
+                    if st.feasible(z3.And(group[a][0], group[b][0])):
+                        raise Unsupported("iteration over a list with conditionally present elements")
+            v = group[-1][1]
+            for h, y in reversed(group[:-1]):
+                v = self.merge_values(h, y, v)
+            out.append(v)
+            i = j
+        return out
+
     def iterate(self, it, st):
         if isinstance(it, (list, tuple)):
             return list(it)
         if isinstance(it, GList):
-            if all(z3.is_true(g) for g, _ in it.items):
-                return [x for _, x in it.items]
-            raise Unsupported("iteration over a guarded list")
+            return self.compact_glist(it, st)
         if isinstance(it, dict):
             return list(it.keys())
         if isinstance(it, str):
@@ -2031,6 +2124,7 @@ class Engine(object):
         if len(self.call_stack) > 40:
             raise Unsupported("call depth exceeded (recursion?)")
         locs = self.bind_args(f, args, kwargs, st)
+        locs["__guard_base__"] = len(st.guards)
         frame = Frame(f, locs, f.closure)
         self.call_stack.append(f.qualname)
         try:
